@@ -29,4 +29,23 @@ def canon (l : List (Str × Str)) : List (Str × Str) := dedupAdj (l.mergeSort p
 succeeded and the destination holds exactly `src`'s contents. -/
 def expected (src : Field) : List (Str × Str) := canon src.contents
 
+/-! ### clusters: the property per replica
+
+In a cluster with `replicas` copies the imported field is not one object: every owner of a shard holds
+its own fragment.  The property quantifies over "the field", i.e. over every one of these copies:
+after `import (export src)` every owner of every destination shard holds exactly the source pairs
+that fall into that shard, and no other node holds any of them.  The model's import is "delivered to
+all owners" (`InternalClient.Import` loops over `FragmentNodes`), so the model's answer for a shard is
+the same contents `replicas` times; the tie reads every node. -/
+
+/-- Destination shards in ascending order with the canonical contents of each. -/
+def perShard (f : Field) : List (Nat × List (Str × Str)) :=
+  let shards := (f.bits.map (fun b => b.col / SW)).eraseDups.mergeSort (fun a b => a ≤ b)
+  shards.map (fun s => (s, canon ((f.bits.filter (fun b => b.col / SW = s)).map
+    (fun b => (f.rowLabel b.row, f.colLabel b.col)))))
+
+/-- What every one of the `replicas` owners of each shard must hold. -/
+def perReplica (replicas : Nat) (f : Field) : List (Nat × List (List (Str × Str))) :=
+  (perShard f).map (fun p => (p.1, List.replicate replicas p.2))
+
 end PV.C30.Spec
